@@ -1666,7 +1666,9 @@ def rbchk_cases(rng, n, bad_safe=False):
         ngb = int(rng.integers(1, 3))
         q4 = lambda: Fr(int(rng.integers(-40, 41)), 4)  # noqa: E731
         ref = [q4() for _ in range(3)]
-        su = [Fr(1), Fr(1), Fr(2), Fr(1, 2)][int(rng.integers(0, 4))]
+        su0 = [Fr(1), Fr(1), Fr(2), Fr(1, 2)][int(rng.integers(0, 4))]
+        # (the grids of the rigid-body modes may carry different unit scales: the routine takes the LARGEST window norm)
+        sus = [su0 if (g == 0 or rng.random() < 0.6) else su0 * [Fr(2), Fr(1, 2)][int(rng.integers(0, 2))] for g in range(ngb)]
         bpts = [[q4() for _ in range(3)] for _ in range(ngb)]
         Qg = [_rat_rot(rng, plain=True) for _ in range(ngb)]
 
@@ -1685,7 +1687,8 @@ def rbchk_cases(rng, n, bad_safe=False):
 
         rb = []
         for g in range(ngb):
-            rb += [[su * x for x in row] for row in mm(blk(Qg[g]), rb6f(bpts[g], ref))]
+            rb += [[sus[g] * x for x in row] for row in mm(blk(Qg[g]), rb6f(bpts[g], ref))]
+        su = max(sus)
         nb = 6 * ngb
         nq = int(rng.choice([0, 0, 3]))
         segs, rows_b, rows_q = [], [], []
@@ -1698,7 +1701,7 @@ def rbchk_cases(rng, n, bad_safe=False):
                 Qn = _rat_rot(rng)
                 sn = [Fr(1), Fr(1), Fr(2), Fr(1, 2), Fr(4)][int(rng.integers(0, 5))]
                 # motion of the point in its own axes for unit motion of the boundary grid in the grid's (scaled) axes
-                full = mm(mm(blk(Qn), rb6f(p, bpts[g])), [[x / su for x in row] for row in [list(r) for r in zip(*blk(Qg[g]))]])
+                full = mm(mm(blk(Qn), rb6f(p, bpts[g])), [[x / sus[g] for x in row] for row in [list(r) for r in zip(*blk(Qg[g]))]])
                 sel = full[:3] if kind != "rot" else full[3:]
                 sel = [[sn * x for x in row] for row in sel]
                 if kind == "bad":
@@ -1707,7 +1710,7 @@ def rbchk_cases(rng, n, bad_safe=False):
                     E = [[Fr(0)] * 6 for _ in range(3)]
                     E[0][4] = e
                     E[1][3] = e
-                    extra = mm(mm([[sn * x for x in r] for r in Qn], E), [[x / su for x in row] for row in [list(r) for r in zip(*blk(Qg[g]))]])
+                    extra = mm(mm([[sn * x for x in r] for r in Qn], E), [[x / sus[g] for x in row] for row in [list(r) for r in zip(*blk(Qg[g]))]])
                     sel = [[sel[i][j] + extra[i][j] for j in range(6)] for i in range(3)]
                 for r in sel:
                     row = [Fr(0)] * nb
@@ -1755,7 +1758,8 @@ def rbchk_cases(rng, n, bad_safe=False):
         if not ok:
             continue
         cases.append(dict(drm_i=[[int(x * den) for x in r] for r in drm], rb_i=[[int(x * den) for x in r] for r in rb], den=den,
-                          layout=layout, posb=posb, nb=nb, nc=nc, segs=segs, su=float(su)))
+                          layout=layout, posb=posb, nb=nb, nc=nc, segs=segs, su=float(su), mixed_su=len(set(sus)) > 1,
+                          first_su_small=sus[0] < su))
     return cases
 
 
@@ -2814,6 +2818,8 @@ def correspondence(ctx):
         ctx.case(("rbchk", json.dumps(inp)), branch="rbchk:layout-" + c["layout"])
         for kd in set(sg["kind"] for sg in c["segs"]):
             ctx.count("rbchk:" + kd)
+        if c.get("first_su_small"):
+            ctx.count("rbchk:first-grid-not-the-largest-scale")
         try:
             got, txt = run_rbchk(c)
         except Exception as e:  # noqa: BLE001
@@ -2962,7 +2968,7 @@ def correspondence(ctx):
         "netdrm:axial-2",
         "rbmult:first", "rbmult:last", "rbmult:vector", "rbmult:full",
         "coordchk:grid", "coordchk:3-2-1", "coordchk:no-modal-dof", "coordchk:bset-unsorted",
-        "rbchk:layout-first", "rbchk:layout-last", "rbchk:layout-vec", "rbchk:layout-full", "rbchk:node", "rbchk:rot", "rbchk:null",
+        "rbchk:first-grid-not-the-largest-scale", "rbchk:layout-first", "rbchk:layout-last", "rbchk:layout-vec", "rbchk:layout-full", "rbchk:node", "rbchk:rot", "rbchk:null",
         "rbchk:modal", "rbchk:bad", "rbchk:flagged-nonrigid", "rbchk:node-found", "rbchk:err-bsetString", "rbchk:err-scale",
         "cbtf0:bfirst", "cbtf0:blast", "cbtf0:bmixed", "cbtf0:bnoq-permuted",
     ])
